@@ -10,18 +10,28 @@
 //	standalone := '-' | stx ('|' stx)*        stx := <pkgs> ['!'] ['#' <findings>]       '!' = Extract returns an error
 //	detectors  := '-' | det ('|' det)*        det := 'c' <findings> flags | 'q' <hextype> ':' <hexname> '/' <adv> flags
 //	flags      := ['!'] ['~']                 '!' = Scan returns an error as well, '~' = cancels the scan's context
-//	findings   := '-' | fnd (',' fnd)*        fnd := <ptr> '@' <adv> '@' <extra>
-//	adv        := 'n' (no advisory) | 'i' <body> (no ID) | <pub> '.' <ref> '.' <body>
+//	findings   := '-' | fnd (',' fnd)*        fnd := <ptr> '@' <adv> '@' <hex Extra|->
+//	adv        := 'n' (no advisory) | 'i' <body> (no ID) | <pub> '.' <hex Reference|-> '.' <body>
 //
 // Package ids are assigned in extraction order (roots, files by name, extractors by index; then the
 // standalone extractors). Findings with the same <ptr> are ONE Go object (detector.Run must report a tagged
 // copy per occurrence and leave the object itself alone: reply field mut=0). A 'q' detector returns one
-// finding per package of GetSpecific(name, type): ptr 1000+100*detector+package id, extra = package id.
+// finding per package of GetSpecific(name, type): ptr 1000+100*detector+package id, Extra = "%03d" of the package id.
+// Reply: findings (find=) and plugin statuses (plug=) are printed IN THE ORDER THE SCAN EMITS THEM; findset/plugset are the
+// same lists canonically sorted, fkeys/plugkeys the sort keys (hexref/hexextra, hex name) in emitted order.
+//
+// second op (C10, plugin loops under cancellation):  phases <before 0|1> <nfx> <roots> <standalone> <detectors>
+//
+//	roots := root ('|' root)*  root := '-' | entry (';' entry)*  entry := 'n' | call (',' call)*  call := <extractor digit><ret>['~']
+//	standalone, detectors := '-' | plugin ('|' plugin)*          plugin := <ret>['~']
+//	ret := 'o' nil | 'e' an error | 'c' ctx.Err()                '~' = cancels the scan's context while running
+//	reply: started=<plugin calls in start order> st=<ok|failed> pst=<standalone/detector statuses in the result>
 package main
 
 import (
 	"context"
 	"errors"
+	"flag"
 	"fmt"
 	"math/rand"
 	"sort"
@@ -50,14 +60,15 @@ type pkgSpec struct {
 	typ, name string
 }
 type advSpec struct {
-	kind           byte // 'n', 'i', 'f'
-	pub, ref, body int
+	kind      byte // 'n', 'i', 'f'
+	pub, body int
+	ref       string // Reference, a byte string
 }
 type fndSpec struct {
 	isNil bool
 	ptr   int
 	adv   advSpec
-	extra int
+	extra string // Extra, a byte string
 }
 type fileSpec struct {
 	exts     []int
@@ -115,7 +126,7 @@ func parseAdv(s string) advSpec {
 		return advSpec{kind: 'i', body: atoi(s[1:])}
 	}
 	t := strings.Split(s, ".")
-	return advSpec{'f', atoi(t[0]), atoi(t[1]), atoi(t[2])}
+	return advSpec{kind: 'f', pub: atoi(t[0]), ref: hx.UnHex(t[1]), body: atoi(t[2])}
 }
 
 func parseFindings(s string) []fndSpec {
@@ -129,7 +140,7 @@ func parseFindings(s string) []fndSpec {
 			continue
 		}
 		t := strings.Split(f, "@")
-		out = append(out, fndSpec{false, atoi(t[0]), parseAdv(t[1]), atoi(t[2])})
+		out = append(out, fndSpec{false, atoi(t[0]), parseAdv(t[1]), hx.UnHex(t[2])})
 	}
 	return out
 }
@@ -222,7 +233,7 @@ func advStr(a advSpec) string {
 	case 'i':
 		return "i" + strconv.Itoa(a.body)
 	}
-	return fmt.Sprintf("%d.%d.%d", a.pub, a.ref, a.body)
+	return fmt.Sprintf("%d.%s.%d", a.pub, hx.Hex(a.ref), a.body)
 }
 func findingsStr(fs []fndSpec) string {
 	var o []string
@@ -231,7 +242,7 @@ func findingsStr(fs []fndSpec) string {
 			o = append(o, "z")
 			continue
 		}
-		o = append(o, fmt.Sprintf("%d@%s@%d", f.ptr, advStr(f.adv), f.extra))
+		o = append(o, fmt.Sprintf("%d@%s@%s", f.ptr, advStr(f.adv), hx.Hex(f.extra)))
 	}
 	return hx.Join(o, ",")
 }
@@ -326,7 +337,7 @@ func mkAdv(a advSpec) *detector.Advisory {
 		adv.Sev = &detector.Severity{Severity: detector.SeverityEnum(a.body % 3)}
 	}
 	if a.kind == 'f' {
-		adv.ID = &detector.AdvisoryID{Publisher: fmt.Sprintf("P%d", a.pub), Reference: fmt.Sprintf("%03d", a.ref)}
+		adv.ID = &detector.AdvisoryID{Publisher: fmt.Sprintf("P%d", a.pub), Reference: a.ref}
 	}
 	return adv
 }
@@ -338,7 +349,7 @@ func (w *world) finding(f fndSpec) *detector.Finding {
 	if o, ok := w.fnd[f.ptr]; ok {
 		return o // same label = same Go object
 	}
-	o := &detector.Finding{Adv: mkAdv(f.adv), Extra: fmt.Sprintf("%03d", f.extra), Target: &detector.TargetDetails{Location: []string{fmt.Sprintf("loc%d", f.ptr)}}, Detectors: []string{"stale"}}
+	o := &detector.Finding{Adv: mkAdv(f.adv), Extra: f.extra, Target: &detector.TargetDetails{Location: []string{fmt.Sprintf("loc%d", f.ptr)}}, Detectors: []string{"stale"}}
 	w.fnd[f.ptr] = o
 	w.fndLabel[o] = f.ptr
 	return o
@@ -453,7 +464,7 @@ func (d det) Scan(_ context.Context, _ *scalibrfs.ScanRoot, px *packageindex.Pac
 	} else {
 		for _, p := range px.GetSpecific(d.spec.qn, d.spec.qt) {
 			id := w.pkgID[p]
-			out = append(out, w.finding(fndSpec{false, 1000 + 100*d.idx + id, d.spec.qadv, id}))
+			out = append(out, w.finding(fndSpec{false, 1000 + 100*d.idx + id, d.spec.qadv, fmt.Sprintf("%03d", id)}))
 		}
 	}
 	if d.spec.canc {
@@ -480,10 +491,9 @@ func advOut(a *detector.Advisory) string {
 	if a.ID == nil {
 		return "i" + strconv.Itoa(body)
 	}
-	pub, ref := 0, 0
+	pub := 0
 	fmt.Sscanf(a.ID.Publisher, "P%d", &pub)
-	ref, _ = strconv.Atoi(a.ID.Reference)
-	return fmt.Sprintf("%d.%d.%d", pub, ref, body)
+	return fmt.Sprintf("%d.%s.%d", pub, hx.Hex(a.ID.Reference), body)
 }
 
 func errEnum(msg string) string {
@@ -564,13 +574,12 @@ func run(c tcase) string {
 			st = "failed"
 			errS = errEnum(res.Status.FailureReason)
 		}
-		// findings: canonical strings; sortedness w.r.t. (reference, extra) checked on the result order
-		var fo []string
-		sorted := true
-		prev := ""
+		// findings and statuses IN EMITTED ORDER (plus the canonically sorted lists and the key sequences)
+		var fo, fkeys []string
 		for _, f := range res.Inventory.Findings {
 			if f == nil {
 				fo = append(fo, "z")
+				fkeys = append(fkeys, "?")
 				continue
 			}
 			// a reported detector finding is a COPY: its label travels in the (copied) Target
@@ -586,24 +595,23 @@ func run(c tcase) string {
 			if f.Target != nil && len(f.Target.Location) == 1 {
 				tgt = f.Target.Location[0]
 			}
-			ex, _ := strconv.Atoi(f.Extra)
-			fo = append(fo, fmt.Sprintf("%d@%s@%d@%s@%s", lab, advOut(f.Adv), ex, tgt, hx.Join(dn, "+")))
+			fo = append(fo, fmt.Sprintf("%d@%s@%s@%s@%s", lab, advOut(f.Adv), hx.Hex(f.Extra), tgt, hx.Join(dn, "+")))
 			if f.Adv != nil && f.Adv.ID != nil {
-				k := f.Adv.ID.Reference + "\x00" + f.Extra
-				if k < prev {
-					sorted = false
-				}
-				prev = k
+				fkeys = append(fkeys, hx.Hex(f.Adv.ID.Reference)+"/"+hx.Hex(f.Extra))
+			} else {
+				fkeys = append(fkeys, "?")
 			}
 		}
-		sort.Strings(fo)
-		var pl []string
+		foSet := append([]string{}, fo...)
+		sort.Strings(foSet)
+		var pl, plKeys []string
 		for _, p := range res.PluginStatus {
 			s := map[plugin.ScanStatusEnum]string{plugin.ScanStatusSucceeded: "ok", plugin.ScanStatusPartiallySucceeded: "partial", plugin.ScanStatusFailed: "failed"}[p.Status.Status]
 			pl = append(pl, p.Name+":"+s)
+			plKeys = append(plKeys, hx.Hex(p.Name))
 		}
-		plSorted := sort.SliceIsSorted(res.PluginStatus, func(i, j int) bool { return res.PluginStatus[i].Name < res.PluginStatus[j].Name })
-		sort.Strings(pl)
+		plSet := append([]string{}, pl...)
+		sort.Strings(plSet)
 		var pk []int
 		for _, p := range res.Inventory.Packages {
 			pk = append(pk, w.pkgID[p])
@@ -629,8 +637,9 @@ func run(c tcase) string {
 				mut = true
 			}
 		}
-		return fmt.Sprintf("st=%s err=%s calls=%s idx=%s idxsame=%s find=%s sorted=%s plug=%s plugsorted=%s pk=%s mut=%s",
-			st, errS, hx.Join(w.calls, ","), idx, hx.B(same), hx.Join(fo, ","), hx.B(sorted), hx.Join(pl, ","), hx.B(plSorted), hx.Join(pks, "."), hx.B(mut))
+		return fmt.Sprintf("st=%s err=%s calls=%s idx=%s idxsame=%s find=%s findset=%s fkeys=%s plug=%s plugset=%s plugkeys=%s pk=%s mut=%s",
+			st, errS, hx.Join(w.calls, ","), idx, hx.B(same), hx.Join(fo, ","), hx.Join(foSet, ","), hx.Join(fkeys, ","),
+			hx.Join(pl, ","), hx.Join(plSet, ","), hx.Join(plKeys, ","), hx.Join(pks, "."), hx.B(mut))
 	})
 }
 
@@ -655,10 +664,16 @@ type fgen struct {
 	r       *rand.Rand
 	nextPtr int
 	made    []fndSpec
+	refs    []int // indices into refPool used by this case
 }
 
-// adv: ids from a pool of 3 references x 2 publishers; bodies from a pool of 4 (so that equal and
-// unequal bodies under one id both occur); a small share lacks the advisory or the id.
+// references in prefix relations (the longer one continuing with a byte below ':' — digits, '-', '.', '/' — or above it), an
+// empty one, and extras likewise: what tells a field-by-field comparison from any comparison of a concatenated key
+var refPool = []string{"CVE-1", "CVE-12", "CVE-1-2", "CVE-1.5", "CVE-1:", "CVE-2024-1234", "CVE-2024-12345", "CVE-2024-1234/a", "", "a", "a;b"}
+var extraPool = []string{"", "0", "1", "10", ":", "a", "1:", "\x00"}
+
+// adv: ids from a (per case) small sub-pool of references x 2 publishers; the body is a function of the reference unless
+// the case is adversarial (so that equal and unequal bodies under one id both occur); a small share lacks the advisory or the id.
 func (g *fgen) adv(badPct int) advSpec {
 	k := g.r.Intn(100)
 	switch {
@@ -667,8 +682,9 @@ func (g *fgen) adv(badPct int) advSpec {
 	case k < badPct:
 		return advSpec{kind: 'i', body: g.r.Intn(4)}
 	}
-	ref := g.r.Intn(3)
-	body := ref // by default the body is determined by the reference: consistent
+	ri := g.refs[g.r.Intn(len(g.refs))]
+	ref := refPool[ri]
+	body := ri % 4 // by default the body is determined by the reference: consistent
 	if g.r.Intn(100) < badPct {
 		body = g.r.Intn(4)
 	}
@@ -676,7 +692,7 @@ func (g *fgen) adv(badPct int) advSpec {
 	if g.r.Intn(12) == 0 {
 		pub = 1
 	}
-	return advSpec{'f', pub, ref, body + 4*pub}
+	return advSpec{kind: 'f', pub: pub, ref: ref, body: body + 4*pub}
 }
 
 // findings: detector findings may repeat an earlier finding object (aliasPct) — of the same detector, of another
@@ -692,7 +708,7 @@ func (g *fgen) findings(max, badPct, aliasPct int, fromDetector bool) []fndSpec 
 			out = append(out, fndSpec{isNil: true})
 			continue
 		}
-		f := fndSpec{false, g.nextPtr, g.adv(badPct), g.r.Intn(3)}
+		f := fndSpec{false, g.nextPtr, g.adv(badPct), extraPool[g.r.Intn(2+g.r.Intn(len(extraPool)-1))]}
 		g.nextPtr++
 		g.made = append(g.made, f)
 		out = append(out, f)
@@ -703,6 +719,9 @@ func (g *fgen) findings(max, badPct, aliasPct int, fromDetector bool) []fndSpec 
 func randCase(r *rand.Rand) tcase {
 	c := tcase{nfx: r.Intn(4)}
 	g := &fgen{r: r, nextPtr: 1}
+	for n := 2 + r.Intn(3); n > 0; n-- {
+		g.refs = append(g.refs, r.Intn(len(refPool)))
+	}
 	// how adversarial this case is
 	badPct := []int{0, 0, 0, 6, 25}[r.Intn(5)]
 	aliasPct := []int{0, 0, 0, 0, 15}[r.Intn(5)]
@@ -750,7 +769,7 @@ func randCase(r *rand.Rand) tcase {
 // exhaustive (thorough): every list of ≤ 3 findings over 2 ids x 2 bodies + "no advisory" + "no id" + nil entry,
 // split over 1..2 detectors in every way, with and without a detector error.
 func exhaustive(emit func(tcase)) {
-	advs := []advSpec{{'f', 0, 0, 0}, {'f', 0, 0, 1}, {'f', 0, 1, 0}, {'f', 0, 1, 1}, {kind: 'n'}, {kind: 'i', body: 0}, {kind: 'z'}}
+	advs := []advSpec{{kind: 'f', ref: "CVE-1", body: 0}, {kind: 'f', ref: "CVE-1", body: 1}, {kind: 'f', ref: "CVE-12", body: 0}, {kind: 'f', ref: "CVE-12", body: 1}, {kind: 'n'}, {kind: 'i', body: 0}, {kind: 'z'}}
 	var rec func(cur []advSpec)
 	rec = func(cur []advSpec) {
 		for split := 0; split <= len(cur); split++ {
@@ -762,7 +781,7 @@ func exhaustive(emit func(tcase)) {
 							fs = append(fs, fndSpec{isNil: true})
 							continue
 						}
-						fs = append(fs, fndSpec{false, base + i + 1, a, i % 2})
+						fs = append(fs, fndSpec{false, base + i + 1, a, []string{"", "1"}[i%2]})
 					}
 					return fs
 				}
@@ -781,24 +800,418 @@ func exhaustive(emit func(tcase)) {
 	rec(nil)
 }
 
+// orderCases (both tiers): the documented ORDER of findings and statuses. Four findings whose references are in prefix
+// relation (and two that differ only in Extra, one Extra empty) are dealt to 1..3 detectors in every way and the
+// detectors are listed in every order; a second family puts two prefix-related references into one detector in both
+// orders, next to extractors with several roots (several status entries with the same name).
+func orderCases(emit func(tcase)) {
+	refs := [][2]string{{"CVE-2024-12345", ""}, {"CVE-2024-1234", "1"}, {"CVE-2024-1234", ""}, {"CVE-1-2", "0"}, {"CVE-1", ":"}, {"CVE-12", ""}}
+	mkF := func(i int) fndSpec {
+		return fndSpec{false, i + 1, advSpec{kind: 'f', ref: refs[i][0], body: 0}, refs[i][1]}
+	}
+	perms3 := [][]int{{0, 1, 2}, {0, 2, 1}, {1, 0, 2}, {1, 2, 0}, {2, 0, 1}, {2, 1, 0}}
+	// every assignment of 4 findings to 3 detectors x every listing order of the detectors
+	for pick := 0; pick+4 <= len(refs); pick++ {
+		for asg := 0; asg < 81; asg++ {
+			var per [3][]fndSpec
+			a := asg
+			for i := 0; i < 4; i++ {
+				per[a%3] = append(per[a%3], mkF(pick+i))
+				a /= 3
+			}
+			for _, pm := range perms3 {
+				c := tcase{nfx: 0, roots: [][]fileSpec{nil}}
+				for _, d := range pm {
+					c.dets = append(c.dets, detSpec{mode: 'c', findings: per[d]})
+				}
+				emit(c)
+			}
+		}
+	}
+	// one detector returning the findings in every order of a triple; two roots and two fs extractors for the statuses
+	for _, pm := range perms3 {
+		for _, trip := range [][3]int{{0, 1, 2}, {3, 4, 5}, {1, 2, 5}} {
+			fs := []fndSpec{mkF(trip[pm[0]]), mkF(trip[pm[1]]), mkF(trip[pm[2]])}
+			emit(tcase{nfx: 2, roots: [][]fileSpec{{{exts: []int{0, 1}, pkgs: []pkgSpec{{true, "pypi", "a"}}}}, {{exts: []int{1}, err: true}}},
+				sts: []stSpec{{}, {err: true}}, dets: []detSpec{{mode: 'c', findings: fs}, {mode: 'c', err: true}}})
+		}
+	}
+}
+
+// ---------------------------------------------------------------- phases: plugin loops under cancellation
+
+type phCall struct {
+	x      int  // fs extractor index (fs phase only)
+	ret    byte // 'o' nil, 'e' an error, 'c' ctx.Err()
+	cancel bool
+}
+type phCase struct {
+	before bool
+	nfx    int
+	roots  [][][]phCall // root -> entry -> calls (extractors that require the entry, ascending)
+	sts    []phCall
+	dets   []phCall
+}
+
+func (c phCall) str(withX bool) string {
+	s := ""
+	if withX {
+		s = strconv.Itoa(c.x)
+	}
+	s += string(c.ret)
+	if c.cancel {
+		s += "~"
+	}
+	return s
+}
+
+func (c phCase) line() string {
+	var rs []string
+	for _, r := range c.roots {
+		var es []string
+		for _, e := range r {
+			if len(e) == 0 {
+				es = append(es, "n")
+				continue
+			}
+			var cs []string
+			for _, k := range e {
+				cs = append(cs, k.str(true))
+			}
+			es = append(es, strings.Join(cs, ","))
+		}
+		rs = append(rs, hx.Join(es, ";"))
+	}
+	pl := func(ps []phCall) string {
+		var o []string
+		for _, p := range ps {
+			o = append(o, p.str(false))
+		}
+		return hx.Join(o, "|")
+	}
+	return fmt.Sprintf("phases %s %d %s %s %s", hx.B(c.before), c.nfx, strings.Join(rs, "|"), pl(c.sts), pl(c.dets))
+}
+
+func parsePhCall(s string, withX bool) phCall {
+	var c phCall
+	if withX {
+		c.x = int(s[0] - '0')
+		s = s[1:]
+	}
+	c.ret = s[0]
+	if c.ret != 'o' && c.ret != 'e' && c.ret != 'c' {
+		panic("bad ret " + s)
+	}
+	c.cancel = len(s) > 1 && s[1] == '~'
+	return c
+}
+
+func parsePhases(l string) phCase {
+	t := strings.Split(l, " ")
+	if len(t) != 6 {
+		panic("bad phases case " + l)
+	}
+	c := phCase{before: t[1] == "1", nfx: atoi(t[2])}
+	for _, r := range strings.Split(t[3], "|") {
+		var es [][]phCall
+		if r != "-" {
+			for _, e := range strings.Split(r, ";") {
+				var cs []phCall
+				if e != "n" {
+					for _, k := range strings.Split(e, ",") {
+						cs = append(cs, parsePhCall(k, true))
+					}
+				}
+				es = append(es, cs)
+			}
+		}
+		c.roots = append(c.roots, es)
+	}
+	pl := func(s string) []phCall {
+		var o []phCall
+		if s != "-" {
+			for _, k := range strings.Split(s, "|") {
+				o = append(o, parsePhCall(k, false))
+			}
+		}
+		return o
+	}
+	c.sts, c.dets = pl(t[4]), pl(t[5])
+	return c
+}
+
+type phWorld struct {
+	log    []string
+	cancel context.CancelFunc
+	files  map[string][]phCall
+}
+
+// do is the body of every fake plugin call: log the start, maybe cancel, return nil / an error / ctx.Err()
+func (w *phWorld) do(ctx context.Context, name string, c phCall) error {
+	w.log = append(w.log, name)
+	if c.cancel {
+		w.cancel()
+	}
+	switch c.ret {
+	case 'e':
+		return errors.New("plugin failed")
+	case 'c':
+		return ctx.Err()
+	}
+	return nil
+}
+
+type phFS struct {
+	base
+	idx int
+	w   *phWorld
+}
+
+func (e phFS) call(path string) (phCall, bool) {
+	for _, c := range e.w.files[path] {
+		if c.x == e.idx {
+			return c, true
+		}
+	}
+	return phCall{}, false
+}
+func (e phFS) FileRequired(api filesystem.FileAPI) bool { _, ok := e.call(api.Path()); return ok }
+func (e phFS) Extract(ctx context.Context, in *filesystem.ScanInput) (inventory.Inventory, error) {
+	c, _ := e.call(in.Path)
+	name := e.name + "@" + strings.SplitN(in.Path, ".", 2)[0]
+	return inventory.Inventory{}, e.w.do(ctx, name, c)
+}
+
+type phST struct {
+	base
+	c phCall
+	w *phWorld
+}
+
+func (e phST) Extract(ctx context.Context, _ *standalone.ScanInput) (inventory.Inventory, error) {
+	return inventory.Inventory{}, e.w.do(ctx, e.name, e.c)
+}
+
+type phDet struct {
+	base
+	c phCall
+	w *phWorld
+}
+
+func (phDet) RequiredExtractors() []string { return nil }
+func (d phDet) Scan(ctx context.Context, _ *scalibrfs.ScanRoot, _ *packageindex.PackageIndex) ([]*detector.Finding, error) {
+	return nil, d.w.do(ctx, d.name, d.c)
+}
+
+func runPhases(c phCase) string {
+	return hx.Guard(func() string {
+		ctx, cancel := context.WithCancel(context.Background())
+		defer cancel()
+		w := &phWorld{cancel: cancel, files: map[string][]phCall{}}
+		var roots []*scalibrfs.ScanRoot
+		for ri, r := range c.roots {
+			m := fstest.MapFS{}
+			for fi, e := range r {
+				if fi > 9 {
+					panic("at most 10 entries per root") // listing order = name order
+				}
+				name := fmt.Sprintf("r%df%d.x", ri, fi)
+				m[name] = &fstest.MapFile{Data: []byte("x")}
+				w.files[name] = e
+			}
+			roots = append(roots, &scalibrfs.ScanRoot{FS: m})
+		}
+		cfg := &scalibr.ScanConfig{ScanRoots: roots, Capabilities: &plugin.Capabilities{}}
+		for i := 0; i < c.nfx; i++ {
+			cfg.FilesystemExtractors = append(cfg.FilesystemExtractors, phFS{base{fmt.Sprintf("fx%d", i)}, i, w})
+		}
+		for i, p := range c.sts {
+			cfg.StandaloneExtractors = append(cfg.StandaloneExtractors, phST{base{fmt.Sprintf("sx%d", i)}, p, w})
+		}
+		for i, p := range c.dets {
+			cfg.Detectors = append(cfg.Detectors, phDet{base{fmt.Sprintf("det%d", i)}, p, w})
+		}
+		if c.before {
+			cancel()
+		}
+		res := scalibr.New().Scan(ctx, cfg)
+		st := "ok"
+		if res.Status.Status != plugin.ScanStatusSucceeded {
+			st = "failed"
+		}
+		var pst []string
+		for _, p := range res.PluginStatus {
+			if strings.HasPrefix(p.Name, "sx") || strings.HasPrefix(p.Name, "det") {
+				v := "ok"
+				if p.Status.Status != plugin.ScanStatusSucceeded {
+					v = "failed"
+				}
+				pst = append(pst, p.Name+":"+v)
+			}
+		}
+		// result order is by name; the model lists standalone before detectors: canonical = sorted by (kind, index)
+		sort.SliceStable(pst, func(i, j int) bool { return strings.HasPrefix(pst[i], "sx") && strings.HasPrefix(pst[j], "det") })
+		return fmt.Sprintf("started=%s st=%s pst=%s", hx.Join(w.log, ","), st, hx.Join(pst, ","))
+	})
+}
+
+var rets = []byte{'o', 'e', 'c'}
+
+// phasesExhaustive (both tiers): 2 roots x up to 2 entries, 2 fs extractors, 2..3 standalone extractors, 2..3 detectors;
+// "cancelled before the scan", or exactly one canceller at EVERY position of the schedule, the canceller returning
+// nil / an error / ctx.Err(), each other plugin's return value varied around it; also without any cancellation.
+func phasesExhaustive(emit func(phCase)) {
+	shapes := []struct {
+		nfx   int
+		roots [][][]int // entry -> extractor indexes
+		nst   int
+		ndet  int
+	}{
+		{2, [][][]int{{{0, 1}, {}, {1}}, {{0}}}, 2, 2},
+		{1, [][][]int{{{0}, {0}}}, 3, 2},
+		{0, [][][]int{{}}, 2, 3},
+		{2, [][][]int{{{0, 1}}, {}}, 0, 2},
+		{1, [][][]int{{{0}}}, 2, 0},
+		{0, [][][]int{{}}, 0, 0},
+	}
+	for _, sh := range shapes {
+		// positions: every call of the schedule
+		npos := sh.nst + sh.ndet
+		for _, r := range sh.roots {
+			for _, e := range r {
+				npos += len(e)
+			}
+		}
+		build := func(cancelAt int, cret byte, others byte, before bool) phCase {
+			c := phCase{before: before, nfx: sh.nfx}
+			pos := 0
+			mk := func(x int) phCall {
+				k := phCall{x: x, ret: others}
+				if pos == cancelAt {
+					k.ret, k.cancel = cret, true
+				}
+				pos++
+				return k
+			}
+			for _, r := range sh.roots {
+				var es [][]phCall
+				for _, e := range r {
+					var cs []phCall
+					for _, x := range e {
+						cs = append(cs, mk(x))
+					}
+					es = append(es, cs)
+				}
+				c.roots = append(c.roots, es)
+			}
+			for i := 0; i < sh.nst; i++ {
+				c.sts = append(c.sts, mk(0))
+			}
+			for i := 0; i < sh.ndet; i++ {
+				c.dets = append(c.dets, mk(0))
+			}
+			return c
+		}
+		for _, others := range rets {
+			emit(build(-1, 'o', others, false))
+			emit(build(-1, 'o', others, true))
+			for at := 0; at < npos; at++ {
+				for _, cret := range rets {
+					emit(build(at, cret, others, false))
+				}
+			}
+		}
+	}
+}
+
+func randPhases(r *rand.Rand) phCase {
+	c := phCase{before: r.Intn(12) == 0, nfx: r.Intn(3)}
+	pc := func(x int) phCall { return phCall{x: x, ret: rets[r.Intn(3)], cancel: r.Intn(6) == 0} }
+	for n := 1 + r.Intn(2); n > 0; n-- {
+		var es [][]phCall
+		for k := r.Intn(4); k > 0; k-- {
+			var cs []phCall
+			for x := 0; x < c.nfx; x++ {
+				if r.Intn(2) == 0 {
+					cs = append(cs, pc(x))
+				}
+			}
+			es = append(es, cs)
+		}
+		c.roots = append(c.roots, es)
+	}
+	for n := r.Intn(4); n > 0; n-- {
+		c.sts = append(c.sts, pc(0))
+	}
+	for n := r.Intn(4); n > 0; n-- {
+		c.dets = append(c.dets, pc(0))
+	}
+	return c
+}
+
+// runLine dispatches on the op; a line of another check's grammar (the corpus of the property that borrows this stream) is "bad-op"
+func runLine(l string) (reply string) {
+	defer func() {
+		if r := recover(); r != nil {
+			reply = "bad-op"
+		}
+	}()
+	switch {
+	case strings.HasPrefix(l, "scan "):
+		c := parseCase(l)
+		return run(c)
+	case strings.HasPrefix(l, "phases "):
+		c := parsePhases(l)
+		return runPhases(c)
+	}
+	return "bad-op"
+}
+
 func main() {
+	only := flag.String("only", "", "restrict the stream: order (findings/status order, for C08) | phases (plugin loops under cancellation, for C10) | scan")
+	also := flag.String("also", "", "case file whose lines of the selected kind are run first (the C20 witnesses, when another property borrows the stream)")
 	o := hx.Parse()
 	out := hx.NewOut()
 	defer out.Flush()
 	if o.Replay != "" {
 		for _, l := range hx.ReplayLines(o.Replay) {
-			out.Emit(l, run(parseCase(l)))
+			out.Emit(l, runLine(l))
 		}
 		return
 	}
-	if o.Tier == "thorough" {
-		exhaustive(func(c tcase) { out.Emit(c.line(), run(c)) })
+	want := func(k string) bool { return *only == "" || *only == k }
+	if *also != "" {
+		for _, l := range hx.ReplayLines(*also) {
+			if (strings.HasPrefix(l, "phases ") && want("phases")) || (strings.HasPrefix(l, "scan ") && (want("order") || want("scan"))) {
+				out.Emit(l, runLine(l))
+			}
+		}
 	}
-	r := hx.Rng(o)
-	for i := 0; i < o.N; i++ {
-		c := randCase(r)
+	emitScan := func(c tcase) {
 		l := c.line()
 		// round-trip through the parser so that what runs is exactly what the line says
 		out.Emit(l, run(parseCase(l)))
+	}
+	emitPh := func(c phCase) {
+		l := c.line()
+		out.Emit(l, runPhases(parsePhases(l)))
+	}
+	if want("order") {
+		orderCases(emitScan)
+	}
+	if want("phases") {
+		phasesExhaustive(emitPh)
+	}
+	if o.Tier == "thorough" && want("scan") {
+		exhaustive(emitScan)
+	}
+	r := hx.Rng(o)
+	for i := 0; i < o.N; i++ {
+		switch {
+		case *only == "phases" || (*only == "" && i%5 == 4):
+			emitPh(randPhases(r))
+		default:
+			emitScan(randCase(r))
+		}
 	}
 }
